@@ -1,3 +1,5 @@
+import datetime
+
 from excel2pycl.src.cell import Cell
 from excel2pycl.src.context import Context
 from excel2pycl.src.excel import Excel, TextCellValue
@@ -43,8 +45,14 @@ class CellTranslator(AbstractTranslator):
                     raise E2PyclParserException(f'Formula of {cell} is nested too deeply to be translated') from e
                 finally:
                     context._cells_in_translation.discard(cell_uid)
+            elif cell.value is None:
+                code = 'self.EmptyCell()'
+            elif isinstance(cell.value, (bool, int, float, str, datetime.date, datetime.time, datetime.timedelta)):
+                code = repr(cell.value)
             else:
-                code = repr(cell.value) if cell.value is not None else 'self.EmptyCell()'
+                # e.g. the object openpyxl hands out for a data table: its repr() is no Python expression, and one such cell
+                # would make the whole class unloadable
+                raise E2PyclParserException(f'Value of {cell} has a type that cannot be translated: {type(cell.value).__name__}')
             context.set_cell(cell, code)
         return cell, excel, context
 
